@@ -104,6 +104,23 @@ def run(tier):
                 ck.violation("value / gradient at the current content of a parameter array that the caller modified in place between calls",
                              {**ident, "first": v_a, "after_in_place_change": v_b, "fresh_array_same_content": fresh_b, "after_changing_back": v_c},
                              site=f"{cname}.__call__:stale-state")
+        # the same problem in other UNITS (data, predictions and uncertainties all multiplied by 2^-40, an exact operation): every density gains the
+        # factor 2^40 per datum, the gradient with respect to the parameters is unchanged
+        if ci % 3 == 0 and zmax < 1e3 and np.all(np.isfinite(got["grad"])) and np.isfinite(got["value"]):
+            u_ = 2.0 ** -40
+            model_u = Lin(np.array(J, dtype=float) * u_, const * u_)
+            unc_u = (sig if kind == "logistic" else scale) * u_
+            try:
+                L_u = type(L)(y_data=y * u_, forward_model=model_u, forward_model_jacobian=model_u.jac, **({"gamma": unc_u} if kind == "cauchy" else {"sigma": unc_u}))
+                with np.errstate(all="ignore"):
+                    v_u, g_u = float(L_u(theta)), np.asarray(L_u.gradient(theta), dtype=float)
+                want_u = got["value"] + n * 40.0 * math.log(2.0)
+                if not (abs(v_u - want_u) <= 1e-9 * (abs(want_u) + n * 40.0) and np.allclose(g_u, got["grad"], rtol=1e-9, atol=1e-9 * (1.0 + float(np.max(np.abs(got["grad"])))))):
+                    ck.violation("value: sum over data of the log-density of the named distribution (normalised), at any scale of the data",
+                                 {**ident, "all_quantities_multiplied_by": u_, "want": want_u, "got": v_u, "gradient_unit_scale": got["grad"], "gradient_scaled": g_u},
+                                 site=f"{cname}.value:units")
+            except Exception as ex:
+                ck.violation("likelihood raised on rescaled data", {**ident, "error": repr(ex)[:200]}, site=f"{cname}.value:units")
         # the same likelihood from other accepted input forms (lists; column-vector uncertainties): same value and gradient
         if ci % 5 == 0:
             unc = sig if kind == "logistic" else scale
